@@ -147,7 +147,11 @@ Definition reach_step (G : graph) (R : list nat) : list nat :=
   R ++ filter (fun n => negb (mem n R) && existsb (fun m => mem m R) (succs G n)) (seq 0 (length G)).
 
 Fixpoint reach_iter (G : graph) (k : nat) (R : list nat) : list nat :=
-  match k with O => R | S k' => reach_iter G k' (reach_step G R) end.
+  match k with
+  | O => R
+  | S k' => let R' := reach_step G R in
+            if Nat.eqb (length R') (length R) then R else reach_iter G k' R'
+  end.
 
 Definition reaches (G : graph) (n target : nat) : bool :=
   mem n (reach_iter G (length G) [target]).
